@@ -417,7 +417,7 @@ impl Ctx {
             .arg("--")
             .arg(format!("-runs={}", runs_per_job))
             .arg(format!("-seed={}", (self.seed % 0x7fff_ffff) + 1))
-            .args(["-max_len=96", "-len_control=0", "-timeout=20", "-print_final_stats=1", "-rss_limit_mb=4096"])
+            .args(["-max_len=96", "-len_control=0", "-timeout=300", "-print_final_stats=1", "-rss_limit_mb=4096"])
             .arg(format!("-jobs={}", jobs))
             .arg(format!("-workers={}", jobs))
             .arg(format!("-artifact_prefix={}/", artifacts.display()))
@@ -426,16 +426,48 @@ impl Ctx {
             .env("GV_FUZZ_PROPS", self.prop)
             .env("GV_ROOT", &root)
             .env("RUST_BACKTRACE", "0")
-            .stdin(std::process::Stdio::null())
-            .stdout(std::process::Stdio::piped())
-            .stderr(std::process::Stdio::piped());
-        let out = match cmd.output() {
-            Ok(o) => o,
+            .stdin(std::process::Stdio::null());
+        // Watchdog: libFuzzer's own -timeout handler can deadlock inside malloc (observed under heavy
+        // load), which would hang the whole check. The campaign runs in its own process group and is
+        // killed after a generous deadline; a killed campaign is "inconclusive", never a verdict.
+        use std::os::unix::process::CommandExt;
+        cmd.process_group(0);
+        let stderr_path = work.join("cargo-fuzz.stderr");
+        if let Ok(f) = std::fs::File::create(&stderr_path) {
+            cmd.stderr(f);
+        }
+        cmd.stdout(std::process::Stdio::null());
+        let mut child = match cmd.spawn() {
+            Ok(c) => c,
             Err(e) => {
                 self.infra_errors.push(format!("cannot start cargo fuzz: {}", e));
                 return;
             }
         };
+        let deadline = Instant::now() + std::time::Duration::from_secs(900 + runs_per_job / 10);
+        let mut killed = false;
+        loop {
+            match child.try_wait() {
+                Ok(Some(_)) => break,
+                Ok(None) => {
+                    if Instant::now() > deadline {
+                        let _ = std::process::Command::new("kill").arg("-KILL").arg(format!("-{}", child.id())).status();
+                        let _ = child.wait();
+                        killed = true;
+                        break;
+                    }
+                    std::thread::sleep(std::time::Duration::from_millis(500));
+                }
+                Err(_) => break,
+            }
+        }
+        if killed {
+            self.stats.inconclusive("fuzz: campaign killed by the watchdog (hung libFuzzer job)", || json!({"target": target}));
+        }
+        struct Out {
+            stderr: Vec<u8>,
+        }
+        let out = Out { stderr: std::fs::read(&stderr_path).unwrap_or_default() };
         // executed units: summed from the per-job logs libFuzzer writes into the cwd
         let mut executed: u64 = 0;
         let mut logs = 0;
@@ -482,7 +514,7 @@ impl Ctx {
                 _ => unconfirmed += 1,
             }
         }
-        if executed == 0 && self.failures.is_empty() {
+        if executed == 0 && self.failures.is_empty() && !killed {
             let tail: String = String::from_utf8_lossy(&out.stderr).lines().rev().take(6).collect::<Vec<_>>().join(" | ");
             self.infra_errors.push(format!("fuzz campaign {} executed nothing (build failure?): {}", target, tail));
         }
